@@ -181,7 +181,11 @@ def generate(seed, tier="quick"):
     frng = sub(seed, "flags")
     approved = frng.choice([["create", "fix"], list(CATS), [], ["create"], ["fix", "trim"], [c for c in CATS if frng.random() < 0.5]])
     driver = "plugin" if sub(seed, "driver").random() < 0.08 else "inline"
-    return {"files": files, "schedules": scheds, "approved": approved, "driver": driver, "fmt": draw_fmt(sub(seed, "fmt"))}
+    double_import = sub(seed, "double-import").random() < 0.08
+    if double_import:
+        driver = "plugin"  # (the in-process helper only takes the test files of a project)
+        approved = sorted(set(approved) | {"create"})
+    return {"files": files, "schedules": scheds, "approved": approved, "driver": driver, "fmt": draw_fmt(sub(seed, "fmt")), "double_import": double_import}
 
 
 def _events_for(rng, sid, site, obs):
@@ -198,11 +202,28 @@ def _events_for(rng, sid, site, obs):
     return evs
 
 
+HLP = "from inline_snapshot import snapshot\n\n\ndef check_h(v):\n    return v == snapshot()\n\n\ndef bound_h(v):\n    return v <= snapshot()\n"
+
+
 def program_for(case, k):
     files = []
     for f, tests in zip(case["files"], case["schedules"][k]["tests"]):
         files.append(dict(f, tests=tests))
-    return {"files": files, "pyproject": None}
+    prog = {"files": files, "pyproject": None}
+    if case.get("double_import"):
+        # one helper module that is imported under two names in the same session (its directory is on sys.path AND it is a package):
+        # two code objects, one call in the source - still one call site
+        files[0] = dict(files[0], tests=list(files[0]["tests"]) + [{"name": "test_zz_double_import", "events": [
+            {"t": "stmt", "text": "import os, sys"},
+            {"t": "stmt", "text": "sys.path.insert(0, os.path.join(os.path.dirname(os.path.abspath(__file__)), 'hlpdir'))"},
+            {"t": "stmt", "text": "import hlp"},
+            {"t": "stmt", "text": "import hlpdir.hlp as hlp2"},
+            {"t": "stmt", "text": "rec('dbl1', lambda: hlp.check_h(5))"},
+            {"t": "stmt", "text": "rec('dbl2', lambda: hlp2.check_h(5))"},
+            {"t": "stmt", "text": "rec('dbl3', lambda: hlp.bound_h(3))"},
+            {"t": "stmt", "text": "rec('dbl4', lambda: hlp2.bound_h(8))"}]}])
+        prog["extra_files"] = {"hlpdir/__init__.py": "", "hlpdir/hlp.py": HLP}
+    return prog
 
 
 def interleaving_signature(prog):
@@ -238,6 +259,18 @@ def execute(case, ctx):
         except SyntaxError as ex:
             viol("parse", "unparsable-after-session", str(ex))
             return out
+        if case.get("double_import"):
+            import ast as _ast
+
+            ctx.count("probe_helper_module_imported_under_two_names")
+            htext = sim.to_text(new).get("hlpdir/hlp.py", "")
+            try:
+                calls = [n for n in _ast.walk(_ast.parse(htext)) if isinstance(n, _ast.Call) and getattr(n.func, "id", "") == "snapshot"]
+                vals = [(_ast.literal_eval(c.args[0]) if len(c.args) == 1 else f"<{len(c.args)} arguments>") for c in calls]
+            except (SyntaxError, ValueError) as ex:
+                vals = [f"<{ex}>"]
+            if vals != [5, 8]:
+                viol("aggregation", "one-call-imported-under-two-names-has-two-states", f"approved={sorted(approved)}: hlpdir/hlp.py should hold snapshot(5) and snapshot(8) (bound over 3 and 8), found {vals}\n{htext}")
         sig, alt = interleaving_signature(prog)
         out["abstract"].append(sig)
         if alt >= 2:
